@@ -75,9 +75,32 @@ def one_run(ctx, p, decisions=None, rng=None, items=None, tag="random", p_comple
     return ctl
 
 
+def reuse_after_failure(ctx):
+    """second execution on the same Scheduler after one that failed while limited jobs were in flight (oracle only)"""
+    import ctl_sched
+    for n_slow in (1, 2):
+        for lim in (1, 2):
+            p1 = base.mk_prog([(False, [dict(callee=1)] * 0 + [dict(callee=1 + i) for i in range(n_slow)] + [dict(callee=n_slow + 1)], None)] +
+                              [(False, [], ["r0"]) for _ in range(n_slow)] + [(True, [], None)], {"r0": lim})
+            p2 = base.mk_prog([(False, [dict(callee=1), dict(callee=1, scope="NONE")], None), (False, [], ["r0"])], {"r0": lim})
+            sched = ctl_sched.make_scheduler(None, limits={"r0": lim})
+            # complete the root, then the failing job first: the limited jobs are abandoned in flight
+            st1, _, ctl1, _ = sc.run_real(p1, script=["p", "c0", "p"] + ["p"] * (n_slow + 1) + ["c%d" % (n_slow + 1)] + ["p"] * 6, sched=sched)
+            held = dict(sched.limits_used)
+            st2, pay2, ctl2, _ = sc.run_real(p2, rng=random.Random(n_slow * 7 + lim), sched=sched)
+            ctx.case(key=("reuse", n_slow, lim), sample={"first": st1, "held_after_first": held, "second": st2}, kind="scheduler-reuse",
+                     status=st2)
+            if st2 == "hang":
+                ctx.violation("C09-hang-idle-with-pending-workflow:limits-held-by-previous-execution",
+                              "an execution on a reused Scheduler waits forever for limits held by jobs of a previous, failed execution",
+                              case={"first_program": p1.to_json(), "second_program": p2.to_json(), "held_after_first": held},
+                              expected="run returns or raises", actual=str(pay2), kind="history")
+
+
 def run(ctx):
     rng = ctx.rng
     items = []
+    reuse_after_failure(ctx)
     for defs, cfg in base.CORPUS:
         p = base.mk_prog(defs, cfg)
         if not sc.feasible(p):
